@@ -275,11 +275,14 @@ def prop_C17(tier, seed, rng):
     design = [design_check("MCPartMap", "MCPartMapQuick.cfg" if quick else "MCPartMap.cfg")]
     s1, g1 = tlc_scripts("GenPartMap", "GenPartMap.cfg" if quick else "GenPartMapDeep.cfg", rng, 4000 if quick else 60000)
     s2 = map_gen.generate(1500 if quick else 30000, seed + 4)
-    fams = [Family("tlc", "map", "MapTrace", s1, g1), Family("shaped", "map", "MapTrace", s2)]
+    fams = [Family("tlc", "map", "MapTrace", s1, g1), Family("shaped", "map", "MapTrace", s2),
+            # trees crossing the 4/16/48 thresholds below a key that is itself in the collection
+            Family("fanout", "map", "MapTrace", map_gen.generate_fanout(150 if quick else 3000, seed + 40))]
     return design, fams, ["C17_"], dict(
         rule="scripts = (a) one per transition of the bounded PartMap.tla state graph, (b) shaped branching histories "
              "over Map.Set/Delete/FromMap/Txn (MapTxn reused after Commit)/JSON/YAML and Set.Set/Delete/Union/"
-             "Difference with keys incl. the empty key and prefixes of one another, every value re-read at the end; "
+             "Difference with keys incl. the empty key and prefixes of one another, every value re-read at the end; (c) family fanout: "
+             "4-50 keys P+b below a key P that is itself in the collection, deletions/re-insertions across the node-size thresholds; "
              "non-trivial = >= 3 derived values", nontrivial=lambda ops: sum(1 for o in ops if "j" in o) >= 3,
         assumptions=["keys are valid UTF-8 strings (JSON/YAML round trips)", "values are ints"])
 
